@@ -75,6 +75,15 @@ func c11() {
 			cc.NNPCase.CallerLocked = true
 			run.Count("children_that_loaded_the_same_filter_before_without_nnp", 1)
 		}
+		outerEinval := i%7 != 5 && !sameBefore && !pl.unpriv && pl.nnp && !pl.strace && pl.flags&2 != 0 && (pl.mode == "migrate" || pl.mode == "busy" || pl.mode == "gosched")
+		if outerEinval {
+			// an environment: every thread is under a filter that answers EINVAL to an installation asking for the log flag (a
+			// kernel before 4.14 does that). An error is the right answer; a library that tries again (and is then exposed to
+			// the schedule once more, at its second install) is judged like any other when it reports success
+			cc.NNPCase.Prior = "outer-einval-on-log-flag"
+			cc.NNPCase.CallerLocked = false
+			run.Count("children_under_a_filter_that_refuses_the_log_flag", 1)
+		}
 		cc.Env = vlib.RuntimeKnobsGC[(i/3)%len(vlib.RuntimeKnobsGC)]
 		if i%6 == 1 && pl.mode != "busy" { // CPU-bound goroutines on few Ps would only starve the collecting goroutine
 			cc.GCSpray = 1 + (i/6)%3
@@ -227,15 +236,25 @@ func c11() {
 					}
 				}
 			}
-			// state-based: the thread that installed the filter carries the bit afterwards
+			if outerEinval && !ok && fmt.Sprint(start["outer_err"]) == "" {
+				run.Count("refused_log_flag_surfaced_as_error", 1) // the right answer: nothing to judge
+				return
+			}
+			// state-based: the thread that installed the filter carries the bit afterwards (the first attempt and, if the
+			// library made several, the last one - the one that succeeded)
 			if ins, _ := l["installs"].([]any); ok && len(ins) > 0 {
-				m, _ := ins[0].(map[string]any)
-				itid := fmt.Sprint(jsonU64(m["tid"]))
-				if am, _ := after[itid].(map[string]any); am != nil && fmt.Sprint(am["Exiting"]) != "1" && fmt.Sprint(am["NoNewPrivs"]) != "1" {
-					run.Violation("installing-thread-without-nnp", fmt.Sprintf("%s: NoNewPrivs requested and the load returned nil, but the installing thread %s has NoNewPrivs=%v", desc, itid, am["NoNewPrivs"]), replay)
-					return
+				for _, idx := range []int{0, len(ins) - 1} {
+					m, _ := ins[idx].(map[string]any)
+					itid := fmt.Sprint(jsonU64(m["tid"]))
+					if am, _ := after[itid].(map[string]any); am != nil && fmt.Sprint(am["Exiting"]) != "1" && fmt.Sprint(am["NoNewPrivs"]) != "1" {
+						run.Violation("installing-thread-without-nnp", fmt.Sprintf("%s: NoNewPrivs requested and the load returned nil, but the installing thread %s (install attempt %d of %d) has NoNewPrivs=%v", desc, itid, idx+1, len(ins), am["NoNewPrivs"]), replay)
+						return
+					}
 				}
 				run.Count("installing_thread_state_checked", 1)
+				if len(ins) > 1 {
+					run.Count("loads_with_more_than_one_install_attempt", 1)
+				}
 			}
 			if sameBefore && ok && fmt.Sprint(l["prior_err"]) == "" {
 				self, _ := l["self"].(map[string]any)
